@@ -23,6 +23,7 @@ import (
 	"net"
 	"net/http"
 	"os"
+	"reflect"
 	"sort"
 	"strings"
 	"sync"
@@ -407,6 +408,12 @@ func c15Synth(c vsx) vsx {
 				var ss []http2.Setting
 				for _, s := range f.l[3:] {
 					ss = append(ss, http2.Setting{ID: http2.SettingID(s.l[0].i), Val: uint32(s.l[1].i)})
+					if http2.SettingID(s.l[0].i) == http2.SettingHeaderTableSize {
+						// the peer adopts the announced size: its encoder's next header block opens with a
+						// dynamic table size update (RFC 7541 4.2) and uses the resized table from then on
+						enc[1-d].SetMaxDynamicTableSizeLimit(uint32(s.l[1].i))
+						enc[1-d].SetMaxDynamicTableSize(uint32(s.l[1].i))
+					}
 				}
 				err = fr[d].WriteSettings(ss...)
 			}
@@ -459,6 +466,35 @@ func TestVerifC15Synth(t *testing.T) {
 	}
 	w.Flush()
 	fout.Close()
+}
+
+// TestVerifConsts: how TracingHTTP2Conn configures its two HPACK decoders, on the client and on the server side
+// (hpack.Decoder.dynTab.allowedMaxSize = the largest dynamic table size update the decoder accepts, .maxSize = the
+// size it starts with), read off the constructed connection -> coq/theories/C15_Consts.v.
+func TestVerifConsts(t *testing.T) {
+	out := os.Getenv("VERIF_OUT")
+	if out == "" {
+		t.Skip("VERIF_OUT not set")
+	}
+	var allowed, initial []string
+	for _, server := range []bool{false, true} {
+		tc := TracingHTTP2Conn(&c15Inner{}, server, &c15Collector{}).(*tracingHTTP2Conn)
+		for _, dec := range []*hpack.Decoder{tc.readTracer.decoder, tc.writeTracer.decoder} {
+			a, m := "0", "0" // a missing decoder accepts nothing
+			if dec != nil {
+				tab := reflect.ValueOf(dec).Elem().FieldByName("dynTab")
+				a = fmt.Sprint(tab.FieldByName("allowedMaxSize").Uint())
+				m = fmt.Sprint(tab.FieldByName("maxSize").Uint())
+			}
+			allowed, initial = append(allowed, a), append(initial, m)
+		}
+	}
+	body := fmt.Sprintf("(* client read, client write, server read, server write *)\n"+
+		"Definition go_hpack_allowed : list N := [%s]%%N.\nDefinition go_hpack_initial : list N := [%s]%%N.\n",
+		strings.Join(allowed, "; "), strings.Join(initial, "; "))
+	if err := os.WriteFile(out, []byte(body), 0o644); err != nil {
+		t.Fatal(err)
+	}
 }
 
 // TestVerifC15Alloc: the hostile end-stream length (DESIGN.md section 9, #19).  Feeds a response
